@@ -1,19 +1,227 @@
-/- T2N.Spec.SpellEs — STUB (to be replaced by the specification of es spellings) -/
+/-
+  T2N.Spec.SpellEs — Spanish spellings: cardinals below 10^12 with their accepted variants,
+  ordinals 1..1999 with gender / number / apocope, decimals, digit dictation. Written from Spanish
+  orthography (RAE) and the repository's tests for `es` (see DESIGN.md §3 C01, C04, C05).
+
+  Structure of a cardinal: 3-digit groups g3 g2 g1 g0. Spanish uses the long scale, so numbers
+  ≥ 10^9 are `<g3> mil <g2> millones`: the count of millions is the 6-digit number g3·1000 + g2 and
+  is itself spelled `<g3> mil <g2>`. `mil` is never preceded by `un` (`mil`, `mil millones`);
+  `millón` only for exactly one million (`un millón`), otherwise `millones` (`mil un millones`).
+  `cien` for exactly 100 in a group (`cien`, `cien mil`, `cien millones`), else `ciento …`.
+  Before a scale word the unit 1 is apocopated: `un millón`, `veintiún mil`, `treinta y un mil`;
+  at the end of the number it is the full form `uno`, `veintiuno`.
+
+  Variant axes (independent per group `g` / choice point; `v = fun _ => 0` is the dictionary form):
+    * (cp g 0)  `treinta y uno` | `treinta uno`: conjunction `y` between tens (30..90) and units
+                present | absent (the repository's tests list `treinta cuatro` as accepted)
+    * (cp g 1)  gender of the group, g ∈ {0, 1} only (groups counting millions are always
+                masculine because `millón` is a masculine noun): masculine `doscientos … uno` |
+                feminine `doscientas … una` / `veintiuna`. The hundreds 200..900 and the unit 1
+                of the group agree.
+    * (cp 1 2)  only for a feminine thousands group ending in 1: full feminine `veintiuna mil`,
+                `treinta y una mil` | apocope `veintiún mil`, `treinta y un mil` (both RAE-accepted)
+    * (cp 2 4)  `millón` | accent-less `millon` (accepted in the repository's tests)
+    * ordinals: (cp 0 8) 11 = `undécimo` | `decimoprimero` | `décimo primero`;
+                12 = `duodécimo` | `decimosegundo` | `décimo segundo`;
+                13..19 = `decimotercero` | `décimo tercero` (compound | split)
+
+  Deliberately NOT included (not standard orthography, although the library accepts them):
+  `cienta`, accent-less `dieciseis veintidos veintitres veintiseis`, full `veintiuno mil`,
+  `uno mil` / `un mil` (listed as invalid in the repository's tests), `quadringentésimo`.
+
+  Ordinal inflections (nInfl = 5): 0 masculine singular `º`, 1 feminine singular `ª`,
+  2 masculine plural `ᵒˢ`, 3 feminine plural `ᵃˢ`, 4 apocope `primer` (`.ᵉʳ`; only ranks whose last
+  word is `primero`; `tercer` carries no marker in the library's conventions and is not spelled here).
+  All words of a compound ordinal agree (`centésima vigésima tercera`). Rank 2 alone in the
+  masculine (`segundo`, `segundos`) is the time unit and is not an ordinal here (`none`).
+-/
 import T2N.Spec.Basic
+
+namespace T2N.Spec.Es
+
+/-- 0..29 (standard accented forms); 1 and 21 are handled by `oneWord` / `twentyOneWord` -/
+def unitWords : List Word := [w!"cero", w!"uno", w!"dos", w!"tres", w!"cuatro", w!"cinco", w!"seis", w!"siete",
+  w!"ocho", w!"nueve", w!"diez", w!"once", w!"doce", w!"trece", w!"catorce", w!"quince", w!"dieciséis",
+  w!"diecisiete", w!"dieciocho", w!"diecinueve", w!"veinte", w!"veintiuno", w!"veintidós", w!"veintitrés",
+  w!"veinticuatro", w!"veinticinco", w!"veintiséis", w!"veintisiete", w!"veintiocho", w!"veintinueve"]
+
+def tensWords : List Word := [[], [], w!"veinte", w!"treinta", w!"cuarenta", w!"cincuenta", w!"sesenta",
+  w!"setenta", w!"ochenta", w!"noventa"]
+
+def unitWord (n : Nat) : Word := unitWords.getD n []
+
+def tensWord (t : Nat) : Word := tensWords.getD t []
+
+/-- form of the unit 1: 0 = full masculine, 1 = full feminine, 2 = apocope -/
+def oneWord (f : Nat) : Word :=
+  match f with
+  | 1 => w!"una" | 2 => w!"un" | _ => w!"uno"
+
+def twentyOneWord (f : Nat) : Word :=
+  match f with
+  | 1 => w!"veintiuna" | 2 => w!"veintiún" | _ => w!"veintiuno"
+
+/-- 1..99; `f` = form of a final unit 1 -/
+def below100 (v : Var) (g n f : Nat) : List Word :=
+  if n == 1 then [oneWord f]
+  else if n == 21 then [twentyOneWord f]
+  else if n < 30 then [unitWord n]
+  else
+    let t := n / 10
+    let u := n % 10
+    let uw : Word := if u == 1 then oneWord f else unitWord u
+    if u == 0 then [tensWord t]
+    else if flag v (cp g 0) then [tensWord t, uw]
+    else [tensWord t, w!"y", uw]
+
+def hundredStems : List Word := [[], w!"cient", w!"doscient", w!"trescient", w!"cuatrocient", w!"quinient",
+  w!"seiscient", w!"setecient", w!"ochocient", w!"novecient"]
+
+/-- 200..900 -/
+def hundredWord (h : Nat) (fem : Bool) : Word :=
+  hundredStems.getD h [] ++ (if fem then w!"as" else w!"os")
+
+/-- is group `g` spelled in the feminine? (never the groups that count millions) -/
+def isFem (v : Var) (g : Nat) : Bool := g ≤ 1 && flag v (cp g 1)
+
+/-- form of a final unit 1 in group `g` -/
+def oneForm (v : Var) (g : Nat) : Nat :=
+  if g == 0 then (if isFem v 0 then 1 else 0)
+  else if g == 1 then (if isFem v 1 && !flag v (cp 1 2) then 1 else 2)
+  else 2
+
+/-- 1..999 -/
+def group (v : Var) (g n : Nat) : List Word :=
+  let h := n / 100
+  let r := n % 100
+  let hs : List Word :=
+    if h == 0 then []
+    else if h == 1 then (if r == 0 then [w!"cien"] else [w!"ciento"])
+    else [hundredWord h (isFem v g)]
+  hs ++ (if r == 0 then [] else below100 v g r (oneForm v g))
+
+/-- group followed by `mil` (`g` = 1 or 3); never `un mil` -/
+def thousands (v : Var) (g n : Nat) : List Word :=
+  if n == 0 then []
+  else if n == 1 then [w!"mil"]
+  else group v g n ++ [w!"mil"]
+
+def millionWord (v : Var) (plural : Bool) : Word :=
+  if plural then w!"millones"
+  else if flag v (cp 2 4) then w!"millon" else w!"millón"
+
+/-- cardinal, `n < 10^12` -/
+def cardinal (v : Var) (n : Nat) : List Word :=
+  if n == 0 then [w!"cero"]
+  else
+    let g3 := n / 1000000000 % 1000
+    let g2 := n / 1000000 % 1000
+    let g1 := n / 1000 % 1000
+    let g0 := n % 1000
+    let p3 := thousands v 3 g3
+    let p2 : List Word :=
+      if g3 == 0 && g2 == 0 then []
+      else (if g2 == 0 then [] else group v 2 g2) ++ [millionWord v (!(g3 == 0 && g2 == 1))]
+    let p1 := thousands v 1 g1
+    p3 ++ p2 ++ p1 ++ (if g0 == 0 then [] else group v 0 g0)
+
+/-! ### ordinals (1..1999) -/
+
+def ordUnitWords : List Word := [[], w!"primero", w!"segundo", w!"tercero", w!"cuarto", w!"quinto", w!"sexto",
+  w!"séptimo", w!"octavo", w!"noveno"]
+
+def ordTeenWords : List Word := [w!"décimo", w!"decimoprimero", w!"decimosegundo", w!"decimotercero",
+  w!"decimocuarto", w!"decimoquinto", w!"decimosexto", w!"decimoséptimo", w!"decimoctavo", w!"decimonoveno"]
+
+def ordTensWords : List Word := [[], w!"décimo", w!"vigésimo", w!"trigésimo", w!"cuadragésimo", w!"quincuagésimo",
+  w!"sexagésimo", w!"septuagésimo", w!"octogésimo", w!"nonagésimo"]
+
+def ordHundredWords : List Word := [[], w!"centésimo", w!"ducentésimo", w!"tricentésimo", w!"cuadringentésimo",
+  w!"quingentésimo", w!"sexcentésimo", w!"septingentésimo", w!"octingentésimo", w!"noningentésimo"]
+
+/-- 1..99, masculine singular -/
+def ordBelow100 (v : Var) (n : Nat) : List Word :=
+  if n < 10 then [ordUnitWords.getD n []]
+  else if n == 10 then [w!"décimo"]
+  else if n < 20 then
+    let split : List Word := [w!"décimo", ordUnitWords.getD (n - 10) []]
+    let compound : List Word := [ordTeenWords.getD (n - 10) []]
+    if n == 11 then
+      (match pick v (cp 0 8) 3 with | 0 => [w!"undécimo"] | 1 => compound | _ => split)
+    else if n == 12 then
+      (match pick v (cp 0 8) 3 with | 0 => [w!"duodécimo"] | 1 => compound | _ => split)
+    else (if flag v (cp 0 8) then split else compound)
+  else
+    let t := n / 10
+    let u := n % 10
+    [ordTensWords.getD t []] ++ (if u == 0 then [] else [ordUnitWords.getD u []])
+
+/-- masculine singular ordinal of `1 ≤ n ≤ 1999` -/
+def ordinalBase (v : Var) (n : Nat) : List Word :=
+  let k := n / 1000
+  let h := n / 100 % 10
+  let r := n % 100
+  (if k == 0 then [] else [w!"milésimo"]) ++
+  (if h == 0 then [] else [ordHundredWords.getD h []]) ++
+  (if r == 0 then [] else ordBelow100 v r)
+
+/-- gender / number inflection of one ordinal word ending in `-o` -/
+def inflect (i : Nat) (w : Word) : Word :=
+  match i with
+  | 1 => w.dropLast ++ w!"a"
+  | 2 => w ++ w!"s"
+  | 3 => w.dropLast ++ w!"as"
+  | _ => w
+
+def marker (i : Nat) : Word :=
+  match i with
+  | 0 => w!"º" | 1 => w!"ª" | 2 => w!"ᵒˢ" | 3 => w!"ᵃˢ" | _ => w!".ᵉʳ"
+
+def ordinal (v : Var) (n i : Nat) : Option (List Word × Word) :=
+  if n == 0 || n > 1999 || i > 4 then none
+  else if n == 2 && (i == 0 || i == 2) then none      -- `segundo(s)` alone: the time unit
+  else
+    let ws := ordinalBase v n
+    if i == 4 then
+      (match ws.reverse with
+       | last :: rest => if last == w!"primero" then some ((w!"primer" :: rest).reverse, marker 4) else none
+       | [] => none)
+    else some (ws.map (inflect i), marker i)
+
+/-! ### decimals and dictation -/
+
+def sepWord : Word := w!"coma"
+def decMark : Char := ','
+
+def digitsValue (ds : List Nat) : Nat := ds.foldl (fun acc d => 10 * acc + d) 0
+
+/-- leading zeros spoken `cero` each, the remaining digits read as one cardinal -/
+def fraction (v : Var) (ds : List Nat) : List Word :=
+  let zs := ds.takeWhile (· == 0)
+  let rest := ds.dropWhile (· == 0)
+  zs.map (fun _ => w!"cero") ++ (if rest.isEmpty then [] else cardinal v (digitsValue rest))
+
+def zeroWord : Word := w!"cero"
+
+def digitWord (d : Nat) : Word := unitWord d
+
+def conj : Word := w!"y"
+
+end T2N.Spec.Es
 
 namespace T2N.Spec.Es
 
 def speller : Speller where
   code := "es"
-  cardinal := fun _ _ => []
-  nInfl := 0
-  ordMax := 0
-  ordinal := fun _ _ _ => none
-  sepWord := []
-  decMark := ','
-  fraction := fun _ _ => []
-  zeroWord := []
-  digitWord := fun _ => []
-  conj := []
+  cardinal := cardinal
+  nInfl := 5
+  ordMax := 1999
+  ordinal := ordinal
+  sepWord := sepWord
+  decMark := decMark
+  fraction := fraction
+  zeroWord := zeroWord
+  digitWord := digitWord
+  conj := conj
 
 end T2N.Spec.Es
